@@ -131,6 +131,35 @@ Proof.
     (split; [apply upd_same | reflexivity]).
 Qed.
 
+(** ** One poll request alone, from wherever it is *)
+
+Ltac pcbn E := cbn [pstep p_pc p_q p_tok p_fired p_log is_nil] in E.
+Ltac pstpE E :=
+  rewrite exec_cons in E; unfold step_skip at 1 in E; pcbn E; rewrite ?upd_same in E; pcbn E.
+
+(** One poll request of consumer [c], as labels (a label that is not enabled is skipped). *)
+Definition poll_request (c : nat) : list plabel := [PStart c; PSelTok c; PGet c].
+
+Theorem poll_request_delivers : forall s c,
+  preachable s -> p_q s <> [] -> (forall c', c' <> c -> p_pc s c' <> CWoke) ->
+  let s' := exec pstep (poll_request c) s in
+  p_pc s' c = CDone (p_q s) /\ p_q s' = [] /\ forallb timer_free (poll_request c) = true.
+Proof.
+  intros s c R NE Oth s'.
+  assert (N : is_nil (p_q s) = false) by (destruct (p_q s); [contradiction|reflexivity]).
+  assert (TK : p_pc s c = CWin -> p_tok s = true).
+  { intros PC. destruct (no_lost_wakeup _ R NE) as [T|[c' W]]; [exact T|].
+    destruct (Nat.eq_dec c' c) as [->|D]; [congruence|now elim (Oth c' D)]. }
+  assert (E : s' = exec pstep (poll_request c) s) by reflexivity.
+  clearbody s'. unfold poll_request in E.
+  destruct s as [q tok pc fired lg]. cbn [p_q p_tok p_pc p_log] in *.
+  destruct (pc c) eqn:PC; destruct tok;
+    try (specialize (TK eq_refl); discriminate);
+    repeat (pstpE E; rewrite ?PC, ?N in E; pcbn E);
+    rewrite exec_nil in E; subst s'; cbn [p_q p_pc];
+    rewrite ?upd_same; repeat split; reflexivity.
+Qed.
+
 (** ** FIFO, nothing lost, nothing duplicated *)
 
 (** What all get()s handed out so far, followed by what is still queued, is exactly what was
